@@ -266,7 +266,8 @@ pub fn budget_for(len: usize) -> Budget {
         cursor_steps: 256 * n + 4096,
         tokens: 4 * n + 64,
         errors: 4 * n + 64,
-        lines: n + 8,
+        // add_line calls are cumulative: lines dropped by a rollback are added again on re-lexing
+        lines: 4 * n + 64,
     }
 }
 
